@@ -141,6 +141,8 @@ class ComponentState(object):
         self._specification = componentSpecification
 
         self.controllerState = None
+        # VV: Serialises the "is the component already in a final state? if not set it" decision of finish()
+        self._final_state_lock = threading.Lock()
         self.log = logging.getLogger("wf.cs.%s" % self.specification.reference.lower())
         self.repeatingDisposable = None
 
@@ -708,7 +710,7 @@ class ComponentState(object):
                 if self.repeatingDisposable is not None:
                     self.repeatingDisposable.dispose()
 
-                self.controllerState = state
+                self._set_final_state(state)
                 if shutdown:
                     self.engine.shutdown()
 
@@ -744,9 +746,28 @@ class ComponentState(object):
             self.notifyPostMortem.subscribe(on_next=final_state, on_error=on_error_notifyPostMortem)
             stop_engine()
         else:
-            self.controllerState = finalState
+            self._set_final_state(finalState)
             if stopEngine:
                 self.engine.shutdown()
+
+    def _set_final_state(self, finalState):
+        """Records the final state of the component unless it already has one
+
+        Two threads may call finish() at the same time (e.g. one handles the component's own POSTMORTEM notification
+        while another shuts the component down because a different component failed): both get past the check at the
+        top of finish(). A component has exactly one final state - the first one that is recorded.
+
+        Returns:
+            True if finalState was recorded, False if the component was already in a final state
+        """
+        with self._final_state_lock:
+            if self.controllerState in [experiment.model.codes.FINISHED_STATE, experiment.model.codes.FAILED_STATE,
+                                        experiment.model.codes.SHUTDOWN_STATE]:
+                self.log.info("Component %s is already in its final state %s - will not transition it to %s" % (
+                    self.specification.identification, self.controllerState, finalState))
+                return False
+            self.controllerState = finalState
+            return True
 
     @property
     def finishCalled(self):
